@@ -24,7 +24,7 @@ func init() { core.Register(prop{}) }
 func (prop) ID() string    { return "C08" }
 func (prop) Level() string { return "exploration" }
 func (prop) Rule() string {
-	return "scenario = one generated port table (<=3 entries, tcp/udp, wildcard or specific address, service lists of length 0..4 mixing detector-less stubs, prefix-detector stubs and an undefined name) run through the real server.Run, probed by 8 connections (payload satisfying none/one/several detectors, first segment of 1 byte .. whole payload, zero-byte clients, unlisted ports/addresses); in-memory listener with exact segmentation, plus a sample through the real socket listener on loopback. Non-trivial = a stub was invoked or the dispatcher closed the connection; distinct by (table, probe). Through the real socket listener the scenario's datagrams are also sent all at once (socket-burst, three rounds, calls attributed by client address)."
+	return "scenario = one generated port table (<=3 entries, tcp/udp, wildcard or specific address, service lists of length 0..4 mixing detector-less stubs, prefix-detector stubs and an undefined name) run through the real server.Run, probed by 8 connections (payload satisfying none/one/several detectors, first segment of 1 byte .. whole payload, zero-byte clients, unlisted ports/addresses); in-memory listener with exact segmentation, plus a sample through the real socket listener on loopback. Non-trivial = a stub was invoked or the dispatcher closed the connection; distinct by (table, probe). Through the real socket listener the scenario's datagrams are also sent all at once (socket-burst, three rounds, calls attributed by client address). A quarter of the in-memory tcp probes are silent at first: whether a service has been invoked is recorded before the payload goes out."
 }
 func (prop) Assumptions() []string {
 	return []string{
